@@ -1,8 +1,18 @@
 import Hannibal.Model.Basic
 /-
-  C18 — spawn / detach / join on the three runtimes.  The only runtime-dependent
-  ingredient is what dropping a task handle does: tokio and async-std detach,
-  smol cancels the task.  Everything else about an actor is runtime independent.
+  C18 — spawn / detach / join on the three runtimes.
+
+  Every spawner (`src/actor/spawner/*_spawner.rs`) puts the runtime's task handle into a shared slot
+  (`Arc<Mutex<Option<_>>>`).  `ActorHandle::join()` creates a *lazy* join future that shares the slot; at its
+  first poll it takes the task handle out of the slot (or resolves to `None` if the slot is empty) and owns it
+  from then on.  A spawner may install a detach closure, which takes the task handle out of the slot and
+  detaches it; `ActorHandle::detach` runs it, and so does `ActorHandle`'s `Drop` impl if it has one.
+  The slot dies with its last owner (the `ActorHandle` and the join futures that have not been polled yet).
+
+  The only runtime-dependent ingredient is what dropping a runtime task handle does: tokio and async-std
+  detach, smol cancels the task (`dropCancels`; the runtimes' documented contract, validated by the rt18
+  scenarios on the real runtimes) - unless the spawner wraps the task in a guard that detaches on drop
+  (`SpawnWiring.taskGuarded`).  Everything else about an actor is runtime independent.
 -/
 namespace Hannibal
 
@@ -30,11 +40,26 @@ def SpawnEntry.all : List SpawnEntry :=
    .builderSpawn, .builderSpawnOwning, .streamBuilderSpawn, .streamBuilderSpawnOwning,
    .fromRegistry, .register, .spawnWith]
 
-/-- Structural facts for C18, read from spawner.rs / builder.rs / service.rs / actor_handle.rs. -/
+/-- Structural facts for C18, read from spawner.rs / builder.rs / service.rs / actor_handle.rs /
+    *_spawner.rs on every run. -/
 structure SpawnWiring where
   disp : SpawnEntry → Disp
   /-- `ActorHandle` has a `Drop` impl that runs the detach closure -/
   handleDropDetaches : Bool
+  /-- the runtime's spawner installs a detach closure (`with_detach_fn`) -/
+  detachFn : Runtime → Bool
+  /-- the runtime's spawner wraps the task handle in a guard whose `Drop` detaches the task -/
+  taskGuarded : Runtime → Bool
+  /-- every spawner has the shape the model is written for: the task handle in a shared slot, a lazy join
+      future that takes it out of the slot at its first poll -/
+  lazySharedSlot : Bool
+  /-- `ActorHandle::join` only calls the join closure, `ActorHandle::detach` only runs the detach closure -/
+  joinDetachPlain : Bool
+
+/-- the runtimes' contract: dropping a smol `Task` cancels it, dropping a tokio / async-std `JoinHandle` detaches -/
+def dropCancels : Runtime → Bool
+  | .smol => true
+  | _ => false
 
 inductive TaskSt where
   | running | finished | cancelled
@@ -44,60 +69,112 @@ inductive HandleSt where
   | held | detached | gone
   deriving DecidableEq, Repr, Inhabited
 
-structure S18 where
-  task : TaskSt
-  handle : HandleSt
-  joined : Bool
+/-- a join future -/
+inductive JF where
+  | unpolled    -- created, shares the slot
+  | holding     -- polled: owns the runtime's task handle
+  | done        -- resolved or dropped
   deriving DecidableEq, Repr, Inhabited
 
-/-- dropping the runtime's task handle: smol cancels a running task, the others detach -/
-def dropTask (r : Runtime) (t : TaskSt) : TaskSt :=
-  match r, t with
-  | .smol, .running => .cancelled
-  | _, t => t
+structure S18 where
+  task : TaskSt
+  slot : Bool            -- the runtime's task handle is still in the shared slot
+  handle : HandleSt
+  futs : List JF         -- the join futures created so far, oldest first
+  deriving DecidableEq, Repr, Inhabited
 
-/-- dropping hannibal's `ActorHandle` -/
-def dropHandle (w : SpawnWiring) (r : Runtime) (t : TaskSt) : TaskSt :=
-  if w.handleDropDetaches then t else dropTask r t
+/-- the runtime's task handle is dropped -/
+def dropTask (w : SpawnWiring) (r : Runtime) (t : TaskSt) : TaskSt :=
+  if dropCancels r && !w.taskGuarded r then (match t with | .running => .cancelled | t => t) else t
+
+/-- the slot lost an owner: if it was the last one, what is still in it is dropped -/
+def S18.release (w : SpawnWiring) (r : Runtime) (s : S18) : S18 :=
+  if s.slot && s.handle != .held && !s.futs.contains .unpolled then
+    { s with slot := false, task := dropTask w r s.task }
+  else s
+
+/-- the detach closure (if the spawner installed one): the task handle leaves the slot and is detached -/
+def S18.runDetachFn (w : SpawnWiring) (r : Runtime) (s : S18) : S18 :=
+  if w.detachFn r then { s with slot := false } else s
 
 inductive Op18 where
   | dropOwner      -- drop the OwningAddr / ActorHandle the entry point returned (other Addr clones stay)
   | detach
   | stop
   | call           -- observe: does a call through a plain Addr clone succeed?
-  | join           -- observe: Some / None (only issued after stop or cancellation)
+  | join           -- create a join future and await it (only issued after stop or cancellation)
+  | joinCreate     -- `join()`: a new lazy join future (never polled so far)
+  | joinPoll       -- poll the newest join future once while the actor runs
+  | joinAwait      -- await the newest join future (only issued after stop or cancellation)
+  | joinDrop       -- drop the newest join future
   deriving DecidableEq, Repr, Inhabited
 
 inductive Obs18 where
-  | callOk | callErr | joinSome | joinNone | joinNA
+  | callOk | callErr | joinSome | joinNone | joinNA | joinPending
   deriving DecidableEq, Repr, Inhabited
 
 def afterSpawn (w : SpawnWiring) (r : Runtime) (e : SpawnEntry) : S18 :=
+  let s0 : S18 := { task := .running, slot := true, handle := .held, futs := [] }
   match w.disp e with
-  | .kept => { task := .running, handle := .held, joined := false }
-  | .detached => { task := .running, handle := .detached, joined := false }
-  | .dropped | .unknown => { task := dropHandle w r .running, handle := .gone, joined := false }
+  | .kept => s0
+  | .detached => ({ (s0.runDetachFn w r) with handle := .detached }).release w r
+  | .dropped | .unknown =>
+    ({ (if w.handleDropDetaches then s0.runDetachFn w r else s0) with handle := .gone }).release w r
+
+def setLast (l : List JF) (v : JF) : List JF :=
+  match l.reverse with
+  | [] => []
+  | _ :: rest => (v :: rest).reverse
+
+/-- one poll of the newest join future; `block` = the client awaits it -/
+def pollLast (w : SpawnWiring) (r : Runtime) (s : S18) : S18 × Option Obs18 :=
+  match s.futs.getLast? with
+  | some .unpolled =>
+    if s.slot then
+      (match s.task with
+       | .finished => ({ s with slot := false, futs := setLast s.futs .done }, some .joinSome)
+       | .cancelled => ({ s with slot := false, futs := setLast s.futs .done }, some .joinNone)
+       | .running => ({ s with slot := false, futs := setLast s.futs .holding }, some .joinPending))
+    else (({ s with futs := setLast s.futs .done }).release w r, some .joinNone)
+  | some .holding =>
+    (match s.task with
+     | .finished => ({ s with futs := setLast s.futs .done }, some .joinSome)
+     | .cancelled => ({ s with futs := setLast s.futs .done }, some .joinNone)
+     | .running => (s, some .joinPending))
+  | _ => (s, some .joinNA)
 
 def step18 (w : SpawnWiring) (r : Runtime) (s : S18) : Op18 → S18 × Option Obs18
   | .dropOwner =>
     (match s.handle with
-     | .held => ({ s with task := dropHandle w r s.task, handle := .gone }, none)
+     | .held =>
+       (({ (if w.handleDropDetaches then s.runDetachFn w r else s) with handle := .gone }).release w r, none)
      | _ => (s, none))
   | .detach =>
     (match s.handle with
-     | .held => ({ s with handle := .detached }, none)
+     | .held => (({ (s.runDetachFn w r) with handle := .detached }).release w r, none)
      | _ => (s, none))
   | .stop => (if s.task = .running then { s with task := .finished } else s, none)
   | .call => (s, some (if s.task = .running then .callOk else .callErr))
+  | .joinCreate =>
+    (match s.handle with
+     | .held => ({ s with futs := s.futs ++ [.unpolled] }, none)
+     | _ => (s, some .joinNA))
+  | .joinPoll => pollLast w r s
+  | .joinAwait =>
+    if s.task = .running then (s, some .joinNA)          -- would block: programs only await after stop
+    else pollLast w r s
+  | .joinDrop =>
+    (match s.futs.getLast? with
+     | some .unpolled => (({ s with futs := setLast s.futs .done }).release w r, none)
+     | some .holding => ({ s with futs := setLast s.futs .done, task := dropTask w r s.task }, none)
+     | _ => (s, none))
   | .join =>
     (match s.handle with
      | .held =>
-       if s.joined then (s, some .joinNone)
+       if s.task = .running then (s, some .joinNA)        -- would block: programs only join after stop
        else
-         (match s.task with
-          | .finished => ({ s with joined := true }, some .joinSome)
-          | .cancelled => ({ s with joined := true }, some .joinNone)
-          | .running => (s, some .joinNA))       -- would block: programs only join after stop
+         let (s', o) := pollLast w r { s with futs := s.futs ++ [.unpolled] }
+         (s', o)
      | _ => (s, some .joinNA))
 
 def run18 (w : SpawnWiring) (r : Runtime) : S18 → List Op18 → List Obs18
